@@ -279,6 +279,17 @@ func (n *LocalNode) executeLeave() (pre, succ chord.VNode, err error) {
 		return nil, nil, chord.ErrNodeNoSuccessor
 	}
 	if pre.ID() == n.ID() && succ.ID() == n.ID() {
+		// even alone we take our own membership lock: a join admitted after the check above
+		// must not overlap with the leave (the joiner would be left with a departed successor
+		// that never handed over its keys)
+		if curr, ok := n.state.Transition(chord.Active, chord.Leaving); !ok {
+			n.logger.Warn("Unable to acquire local leave lock", zap.String("state", curr.String()))
+			return nil, nil, chord.ErrLeaveInvalidState
+		}
+		if p, s := n.getPredecessor(), n.getSuccessor(); p == nil || s == nil || p.ID() != n.ID() || s.ID() != n.ID() {
+			n.state.Set(chord.Active) // somebody joined in the meantime: release and try again
+			return nil, nil, chord.ErrLeaveInvalidState
+		}
 		n.logger.Debug("Skipping key transfer to successor because we are the only one left")
 		return
 	}
